@@ -425,7 +425,7 @@ def waitsOk (smp : List Ev) : Bool :=
 def sampleOk (r : Req) (complete : Bool) (smp0 : List Ev) : List String :=
   let smp := smp0.filter fun e => e.k ≠ 'W' ∧ e.k ≠ 'w'
   (if r.bar ∧ r.threads > 1 ∧ complete ∧ !waitsOk smp0 then
-     ["[C08] a sample does not wait twice (around the tally clear) before its start timestamp and once after its end timestamp"] else []) ++
+     ["[C08][C02] a sample does not wait twice (around the tally clear) before its start timestamp and once after its end timestamp: a barrier wait lies inside the timed section or is missing"] else []) ++
   let sh := r.shape
   let pre := smp.takeWhile (·.k ≠ 's')
   let rest := smp.dropWhile (·.k ≠ 's')
@@ -622,7 +622,7 @@ def handle (args : List String) (obs : String) : Option Reply := do
       let total := (recs.map fun (c, j0) => allocsOf c j0).foldl (· + ·) 0
       let want := toString (SoftFloat.div (SoftFloat.ofNat total) (SoftFloat.ofNat iters))
       let got := ((statGroups implStats).getD 6 []).getD 3 ""
-      if got ≠ want then ["[C02][C19] the mean allocation count is not that of the allocator operations the recorded samples' own calls performed between their timestamps"] else []
+      if got ≠ want then ["[C02][C05][C19] the mean allocation count is not that of the allocator operations the recorded samples' own calls performed between their timestamps"] else []
      else []) ++
     -- C08: a panic of the benchmarked function or of the generator, once reached, ends the run with a
     -- panic on the calling thread (the lab reports `panic`), whichever round it happens in
@@ -640,7 +640,7 @@ def handle (args : List String) (obs : String) : Option Reply := do
     (if r.isLocal ∧ (traces.drop 1).any (!·.isEmpty) then ["[C01] a _local form ran on a pool thread"] else []) ++
     -- C03: explicit size, no time limit: calls = s * T * ceil(n/T); test mode: one call per thread; zero cases: none
     (if !panicky then
-       (if noRun ∧ totalCalls ≠ 0 then ["[C03] calls were made although sample_count, sample_size or max_time is 0"] else []) ++
+       (if noRun ∧ totalCalls ≠ 0 then ["[C03][C04] calls were made although sample_count, sample_size or max_time is 0"] else []) ++
        (if !noRun ∧ r.isTest ∧ callsPer.take T ≠ List.replicate T 1 then ["[C03] test mode did not call the function exactly once per thread"] else []) ++
        (if !noRun ∧ !r.isTest ∧ r.ss.isSome ∧ r.maxt.isNone ∧ r.mint.isNone then
           let s := r.ss.getD 1; let n := r.sc.getD 100
